@@ -110,6 +110,9 @@ def judge(c: Campaign, spec: dict[str, Any], run: Run, desc: Any, extra=()) -> N
             c.violation("wrong-final-status", case, f"workflow {ws}, allowed {sorted(allowed)} (outstanding work at accept: "
                         f"{sorted(r for r, o in outstanding.items() if o)})")
         for s in wf.stages:
+            if s.parent_stage_id is not None and s.status.name in ("NOT_STARTED", "RUNNING", "SUSPENDED", "PAUSED") and ws == "CANCELED":
+                # synthetic children are stages too: "every stage that had not already finished ends canceled"
+                c.violation(f"child-left-{s.status.name}", case, f"synthetic stage {s.name} is {s.status.name} in a {ws} workflow")
             if s.parent_stage_id is not None or s.name not in m:
                 continue
             st_ = s.status.name
@@ -183,6 +186,13 @@ def sweep_specs() -> dict[str, dict[str, Any]]:
     out = {k: v for k, v in core_corpus().items() if k != "choice"}
     out["loop-cycle3"] = make_loop("cycle3", 2, None)
     out["loop-side"] = make_loop("side", 1, None)
+    # synthetic children: two sequential before-stages (the second is NOT_STARTED while the first runs), parallel ones, a child that
+    # suspends, after-stages
+    for nm, syn in (("syn-seq-before", {"before": ["ok", "ok"], "after": [], "parallel": False, "pre": False}),
+                    ("syn-par-before", {"before": ["ok", "ok"], "after": ["ok"], "parallel": True, "pre": False}),
+                    ("syn-gate-child", {"before": ["suspend"], "after": [], "parallel": False, "pre": False}),
+                    ("syn-pre-after", {"before": ["ok"], "after": ["ok", "ok"], "parallel": False, "pre": True})):
+        out[nm] = {"name": nm, "stages": [stage("a", [], [ok()]), stage("p", ["a"], [ok(), ok()], syn=syn), stage("z", ["p"], [ok()])]}
     out["cof-pending"] = {"name": "cof-pending", "stages": [
         stage("a", [], [ok()]), stage("b", ["a"], [ok(), ok()], cof=True), stage("s", ["a"], [ok(), ok(), ok()], cof=True),
         stage("z", ["b", "s"], [ok()])]}
